@@ -97,6 +97,16 @@ def c17_pure(args):
         if name in results and results[name] != val(r1):
             return '%s: result depends on interleaved calls' % name
         results[name] = val(r1)
+    # equal arguments (a deep copy, a pickle round trip) give equal results
+    import pickle
+    for how, cp in (('deepcopy', copy.deepcopy), ('pickle', lambda x: pickle.loads(pickle.dumps(x)))):
+        gc, tc = cp(g), cp(t)
+        for name in names:
+            try:
+                if val(cs[name](gc, tc)) != results[name]:
+                    return '%s: result differs on a %s of the same arguments' % (name, how)
+            except Exception as e:
+                return '%s raised %s on a %s of the arguments' % (name, type(e).__name__, how)
     # same calls in reverse order on fresh copies give the same results
     g2 = penman.decode(src, model=amr)
     t2 = penman.parse(src)
@@ -192,7 +202,8 @@ def run_C17(R):
 FLAGS = {'canon': ['--canonicalize-roles'], 'reify': ['--reify-edges'],
          'dereify': ['--dereify-edges'], 'attrs': ['--reify-attributes'],
          'branches': ['--indicate-branches'], 'reconf': ['--reconfigure', 'canonical'],
-         'rearr': ['--rearrange', 'canonical'], 'vars': ['--make-variables', '{prefix}{j}']}
+         'rearr': ['--rearrange', 'canonical'], 'vars': ['--make-variables', '{prefix}{j}'],
+         'rearr_af': ['--rearrange', 'attributes-first']}
 MODELS = {'default': [], 'amr': ['--amr'], 'noop': ['--noop']}
 FORMATS = {'std': ({'indent': -1}, []), 'no': ({'indent': None}, ['--indent', 'no']),
            'i3c': ({'indent': 3, 'compact': True}, ['--indent', '3', '--compact']),
@@ -223,6 +234,8 @@ def pipeline(text, model, opts, fmt):
             t = layout.configure(g, model=model)
         if 'rearr' in opts:
             layout.rearrange(t, key=lambda role: [model.canonical_order(role)])
+        elif 'rearr_af' in opts:
+            layout.rearrange(t, key=lambda role: [], attributes_first=True)
         if 'vars' in opts:
             t.reset_variables('{prefix}{j}')
         out.append(penman.format(t, indent=fmt.get('indent', -1), compact=fmt.get('compact', False)))
@@ -309,7 +322,7 @@ def run_C20(R):
     texts_pool.append('\n\n'.join(('# ::id %d\n# ::snt s %d ; x\n' % (i, i)) + s for i, s in enumerate(SRC[:third])) + '\n')
     texts_pool.append('\n'.join(SRC[third:]) + '\n')
     texts_pool.append('')
-    flags = list(FLAGS) + ['triples']
+    flags = [f for f in FLAGS if f != 'rearr_af'] + ['triples']
     n = 28 if R.quick else 700
     # pairwise-ish covering sample: every flag alone, every pair (thorough), random subsets
     subsets = [[]] + [[f] for f in flags]
@@ -325,6 +338,14 @@ def run_C20(R):
         if via == 'stdin' and R.rnd.random() < 0.3:
             texts = [texts_pool[1]]
         R.check('C20.cli', {'on': on, 'model': mname, 'fmt': fmtname, 'via': via, 'texts': texts})
+    # constants spelled like generated variable names, attributes-first, relabelling
+    tricky = ('(x0 / plan :ARG1-of (x1 / back-01) :mod b :quant p)\n\n'
+              '(w / want-01 :ARG0 (b / boy) :polarity - :mod w2 :ARG1 (g / go-02 :ARG0 b))\n')
+    for on in (['rearr_af'], ['vars'], ['vars', 'rearr_af'], ['vars', 'rearr'], ['rearr_af', 'reify'],
+               ['vars', 'rearr_af', 'canon']):
+        for mname in ('default', 'amr'):
+            R.check('C20.cli', {'on': on, 'model': mname, 'fmt': R.rnd.choice(list(FORMATS)), 'via': 'stdin',
+                                'texts': [tricky]})
     # F13 witness class: reconfigure must use the selected model
     R.check('C20.cli', {'on': ['reconf'], 'model': 'amr', 'fmt': 'std', 'via': 'stdin',
                         'texts': ['(a / alpha :consist-of-of (g / gamma) :ARG1-of (b / beta))\n']})
